@@ -436,6 +436,9 @@ def run(ctx):
         conts = []
         for fp in (classes.IO_SYMBOL, classes.SLICE_SYMBOL):
             tc = classes.scanner_classes(lexpr, fp)
+            if tc is None:
+                r.anchor_missing(fp)
+                return
             conts.append(tc[1])
     except classes.Inexact as e:
         r.violation("<classes>", "inexact", str(e))
